@@ -191,6 +191,12 @@ type Chain struct {
 	Absent          map[common.ValidatorIndex]bool
 	SlotSteps       []HonestSlots
 	prevEff         []common.Gwei
+	branches        int
+	heldSt          common.BeaconState    // reverse branch: an untouched copy taken earlier …
+	heldEpc         *common.EpochsContext // … with a Clone() of the context of that moment
+	heldID          string
+	heldEpoch       common.Epoch
+	syncTargetsDone map[common.Epoch]bool
 	ZeroHashMerge   bool // the merge-transition payload gets block_hash = 0
 	rejections      int
 	runErr          error
@@ -246,6 +252,11 @@ func (c *Chain) problem(format string, a ...interface{}) {
 
 // recordEPC writes an `epc` record for (state id, live context).
 func (c *Chain) recordEPC(id string, st common.BeaconState, live *common.EpochsContext, withPub bool) {
+	c.recordEPCTagged(id, st, live, withPub, "")
+}
+
+// recordEPCTagged returns whether the live dump equals the dump of a context computed from scratch.
+func (c *Chain) recordEPCTagged(id string, st common.BeaconState, live *common.EpochsContext, withPub bool, tag string) bool {
 	n := uint64(0)
 	if vals, err := st.Validators(); err == nil {
 		n, _ = vals.ValidatorCount()
@@ -267,11 +278,17 @@ func (c *Chain) recordEPC(id string, st common.BeaconState, live *common.EpochsC
 	}()
 	lf := c.Rec.Other("e", "epc", liveDump)
 	ff := c.Rec.Other("e", "epc", freshDump)
-	c.Rec.Line("epc %s %s %s", id, lf, ff)
+	if tag != "" {
+		c.Rec.Line("epc %s %s %s %s", id, lf, ff, tag)
+	} else {
+		c.Rec.Line("epc %s %s %s", id, lf, ff)
+	}
 	c.Stats.Inc("epc_records")
 	if string(liveDump) != string(freshDump) {
 		c.Stats.Inc("epc_live_differs_from_fresh")
+		return false
 	}
+	return true
 }
 
 // adopt makes (st, epc) the head of the chain.
